@@ -100,6 +100,10 @@ def attrs(s, kind):
 XSETS = ['DebugFlip', 'DebugFlipM', 'DebugOff', 'EqM', 'OrdM', 'POrdM', 'HashM', 'CloneM2']
 BASE = {'CopyCloneM': 'CopyClone', 'DebugFlip': 'Debug', 'DebugFlipM': 'Debug', 'DebugOff': 'Debug', 'EqM': 'PartialEq', 'OrdM': 'Ord', 'POrdM': 'PartialOrd', 'HashM': 'Hash', 'CloneM2': 'Clone'}
 
+# trait sets with a method field: (set, the path the catalogue writes, the support function the hostile name is an alias of; None: a generic function defined under that name)
+METHOD_SETS = [('Debug', 'fmt_m', 'fmt_m'), ('DebugFlipM', 'fmt_m', 'fmt_m'), ('EqM', 'eq_any', 'eq_any'), ('OrdM', 'cmp_any', 'cmp_any'), ('POrdM', 'pcmp_same', 'pcmp_same'),
+               ('HashM', 'hash_any', 'hash_any'), ('Clone', '::core::clone::Clone::clone', None)]
+
 
 def program(s, kind, nm, with_check=True, derive=True):
     """kind: sn (named struct) | st (tuple struct) | en (enum: tuple variant + named variant).  nm: names."""
@@ -330,6 +334,19 @@ def check(v, tier):
                         prog = '#[derive(Educe)]\n#[educe(%s)]\npub struct Ty<%s> { %s }\npub fn check(r: &mut Rep) {\n    let a = %s;\n    let b = %s;\n    %s\n}\n' % (tl, gd, fields, mkv(1), mkv(2), chk)
                         twin = 'pub struct Ty<%s> { %s }\npub trait VerifMarker {}\nimpl<%s> VerifMarker for Ty<%s> {}\n' % (gd, fields, gd, ', '.join(perm))
                         jobs.append(('C19|fresh-chain|%s|%s|%s' % ('+'.join(perm), ''.join('c' if c else 't' for c in consts), s_), prog, twin, 'fresh-chain', base))
+    # a user function handed to `method(..)` by a one-segment path whose name is an identifier of the templates (a function called `f`, `state`, `other`, `source`, ...):
+    # the name must still mean the user's function inside the generated body
+    import re as _re
+    for ident in plain:
+        if not _re.fullmatch(r'[a-z_][a-z0-9_]*', ident) or not ident.strip('_'):
+            continue
+        for s_, old, alias in METHOD_SETS:
+            for kind in ('sn', 'en'):
+                head_ = ('#[allow(unused_imports)] use crate::sup::%s as %s;\n' % (alias, ident)) if alias else (
+                    '#[allow(dead_code)] pub fn %s<X9: ::core::clone::Clone>(v: &X9) -> X9 { ::core::clone::Clone::clone(v) }\n' % ident)
+                prog = program(s_, kind, NEUTRAL)
+                guard('method(%s)' % old in prog, 'method spelling of %s changed' % s_)
+                jobs.append(('C19|method|%s|%s|%s' % (ident, kind, s_), head_ + prog.replace('method(%s)' % old, 'method(%s)' % ident), head_ + program(s_, kind, NEUTRAL, derive=False), 'method', ident))
     # phase 1: the user's side must be well-typed on its own (hand-written marker impl, no derive)
     twins = [Case('twin|' + k, tw, run=False, expect='any') for k, p, tw, role, ident in jobs]
     tres = rt_run(twins, run=False, name='C19tw', shard_size=600)
